@@ -652,7 +652,9 @@ def compare_frames(m, hctx, rf: Frame, path="top", out=None, relax=None):
     if hclass != rclass:
         out.append(("outcome", f"{path}: outcome {hk or 'success'} vs reference {rf.error or 'success'}"))
         return out
-    if hclass == "halt" and hk != rf.error:
+    # which exceptional halt ended a *sub*-frame is not observable on the EVM (the caller sees 0 and empty
+    # return data either way), so the kind is only compared for the top-level frame
+    if hclass == "halt" and hk != rf.error and path == "top":
         out.append(("halt-kind", f"{path}: halt kind {hk} vs reference {rf.error}"))
     hout = ev_bytes(m, hctx.output.data) or b""
     if hout != rf.output:
